@@ -1120,6 +1120,23 @@ class Config:  # pylint: disable=too-many-instance-attributes
         """
         return self._get_value(name)
 
+    def __deepcopy__(self, memo: dict) -> "Config":
+        """
+        Copy the configuration and everything it holds. The schema is shared with the original, and
+        so are the parent and the container unless they are being copied along.
+        """
+        dup = object.__new__(type(self))
+        memo[id(self)] = dup
+        for name, value in self.__dict__.items():
+            if name == "_schema":
+                value = self._schema
+            elif name in ("_parent", "_container"):
+                value = memo.get(id(value), value)
+            else:
+                value = copy.deepcopy(value, memo)
+            object.__setattr__(dup, name, value)
+        return dup
+
     def _get_value(self, key: str) -> Any:
         field = self._get_field(key)
         if not field and not self._schema._dynamic:
